@@ -224,6 +224,8 @@ pub struct SimDisk {
     pub track_durable: bool,
 }
 
+pub static DEBUG_LOG: std::sync::atomic::AtomicBool = std::sync::atomic::AtomicBool::new(false);
+
 #[inline]
 fn mixhash(h: u64, v: u64) -> u64 {
     (h ^ v).wrapping_mul(0x9E3779B97F4A7C15).rotate_left(23) ^ 0x165667B19E3779F9
@@ -266,6 +268,12 @@ impl SimDisk {
         h = mixhash(h, at);
         h = mixhash(h, extra);
         self.log_hash = h;
+        if DEBUG_LOG.load(Ordering::Relaxed) {
+            use std::io::Write;
+            if let Ok(mut f) = std::fs::OpenOptions::new().create(true).append(true).open(format!("/tmp/vsim-sd-{}.txt", std::process::id())) {
+                let _ = writeln!(f, "SD {} {:?} {} at={} extra={:016x}", kind, role, rel, at, extra);
+            }
+        }
     }
 
     /// A crash point: tick, log, maybe capture images of the state *before* the mutation.
@@ -504,6 +512,7 @@ fn mix_blocks(d: &[u8], c: &[u8], rng: &mut simcore::Rng) -> Vec<u8> {
 /// functions of `seed`.
 #[allow(static_mut_refs)]
 pub fn install(root: &str, seed: u64) {
+    DEBUG_LOG.store(std::env::var_os("VSIM_DEBUG").is_some(), Ordering::Relaxed);
     CLOCK_US.store(0, Ordering::SeqCst);
     CLOCK_ACTIVE.store(true, Ordering::SeqCst);
     ENTROPY_STATE.store(simcore::rng::mix(seed, 0xE17), Ordering::SeqCst);
